@@ -62,7 +62,10 @@ OptimizationStatus GradientDescent(const ObjectiveFunctionSingle &func, const Gr
         // reference paper associated with this function).
         double lhs(0), rhs(0);
         do {
-            if (status.performed_iterations >= max_iterations) return status;
+            if (status.performed_iterations >= max_iterations) {
+                std::swap(x0, state.x); // restore the last accepted iterate, undo the swap at the top of the outer loop
+                return status;
+            }
             lhs = 0;
             rhs = 0;
             for (size_t j=0; j<num_dimensions; j++)
